@@ -542,3 +542,62 @@ func VH_C12_routing() {
 	}
 	vAssert("C12.inflater-always-limited", vNot(vReadAllUnlimited()))
 }
+
+// VH_C09_root_kinds: every inbound entry point on messages whose ROOT is not what the entry point expects
+// (Assertion, EncryptedAssertion, LogoutRequest, LogoutResponse, an unrelated element) with signature
+// none / valid / invalid: a result or an error, never a panic.
+func VH_C09_root_kinds() {
+	sp := vhOrchSP(vFlag("skipSignatureValidation"))
+	sp.ServiceProviderSLOURL = vString("slo")
+	sig := vChoice("root.sig", 3)
+	var root *etree.Element
+	switch vChoice("root.kind", 5) {
+	case 0:
+		root = vhAssertionEl("root", sig).el
+	case 1:
+		inner := vhAssertionEl("inner", vChoice("inner.sig", 2))
+		root = vhEncryptedEl("root.enc", inner.el)
+		root.CreateAttr("vx-sig", vhSigNames[sig])
+		root.CreateAttr("ID", vIDString("root.ID"))
+		if sig != vhSigNone {
+			sg := root.CreateElement("ds:Signature")
+			sg.CreateAttr("xmlns:ds", "http://www.w3.org/2000/09/xmldsig#")
+		}
+	case 2:
+		root = vhLogoutRoot("samlp:LogoutRequest", sig, "root").root
+	case 3:
+		root = vhLogoutRoot("samlp:LogoutResponse", sig, "root").root
+	case 4:
+		root = etree.NewElement("samlp:ArtifactResolve")
+		root.CreateAttr("xmlns:samlp", "urn:oasis:names:tc:SAML:2.0:protocol")
+		root.CreateAttr("ID", vIDString("root.ID"))
+		root.CreateAttr("vx-sig", vhSigNames[sig])
+		root.CreateAttr("vx-name", "root")
+		if sig != vhSigNone {
+			sg := root.CreateElement("ds:Signature")
+			sg.CreateAttr("xmlns:ds", "http://www.w3.org/2000/09/xmldsig#")
+		}
+	}
+	enc := vEncodeDoc("wire", root, 0)
+	switch vChoice("entry", 6) {
+	case 0:
+		r, err := sp.ValidateEncodedResponse(enc)
+		vAssert("C09.result-xor-error", (r != nil) != (err != nil))
+	case 1:
+		r, err := sp.RetrieveAssertionInfo(enc)
+		vAssert("C09.result-xor-error", (r != nil) != (err != nil))
+	case 2:
+		r, err := sp.ValidateEncodedLogoutRequestPOST(enc)
+		vAssert("C09.result-xor-error", (r != nil) != (err != nil))
+	case 3:
+		r, err := sp.ValidateEncodedLogoutResponsePOST(enc)
+		vAssert("C09.result-xor-error", (r != nil) != (err != nil))
+	case 4:
+		r, err := DecodeUnverifiedBaseResponse(enc)
+		vAssert("C09.result-xor-error", (r != nil) != (err != nil))
+	case 5:
+		r, err := DecodeUnverifiedLogoutResponse(enc)
+		vAssert("C09.result-xor-error", (r != nil) != (err != nil))
+	}
+	vReach("returned", true)
+}
